@@ -28,7 +28,7 @@ PROPS = {
                     "statement keeps its semicolon token and trailing trivia (pair pushed as returned), in the same position.",
         not_decided=["in-range statements come out as in whole-file formatting (relates two runs)", "stmt_block::format_stmt_block touches only nested blocks (assumed, class C)"],
         assumptions=[]),
-    "C03": dict(units=["tok"],
+    "C03": dict(units=["tok", "args"],
         explanation="token/trivia layer: format_token keeps a comment's kind, long-bracket level and text (line comments right-trimmed, block comments newline-normalised) and "
                     "creates only whitespace; format_token_reference / format_symbol / format_eof re-emit the comments of the token they format or replace "
                     "(stated over the comment subsequence cms()); pop_until_no_whitespace removes whitespace only.",
@@ -37,7 +37,7 @@ PROPS = {
                      "a comment dropped inside such a chain is not visible to this unit",
                      "code never ends up inside a comment: only the `line comment is followed by a newline` necessary condition (C01.line_comment_terminated)"],
         assumptions=["TokenReference::new/leading_trivia/trailing_trivia behave as a triple of sequences (class A)"]),
-    "C04": dict(units=["tok"],
+    "C04": dict(units=["tok", "expr"],
         explanation="quote choice (get_quote_to_use against the counting spec), number rewriting limited to inserting `0` before a leading `.` / after `-` "
                     "(real text of the Number arm through string wrappers; the `.expect` cannot fail), long-bracket strings keep level and only get the newline rewrite.",
         not_decided=["escape rewriting of quoted strings (regexes RE / UNNECESSARY_ESCAPES + closure): assumed value-preserving (verif::rewrite_escapes); C04's escape clause is undecided",
@@ -48,10 +48,11 @@ PROPS = {
                     "format_eof ends a non-empty trivia list with exactly one configured newline; format_code returns the printed AST unmodified.",
         not_decided=["that every trivia-construction site in functions outside the units uses these helpers"],
         assumptions=["TokenType::tabs(n)/spaces(n) print n tabs/spaces (class A)", "indent arithmetic does not overflow usize (nesting depth x indent_width), stated as a precondition"]),
-    "C11": dict(units=["ctx", "tok"],
+    "C11": dict(units=["ctx", "tok", "args"], bounded=[dict(kind="lib", witnesses="C11_WITNESSES")],
         explanation="get_quote_to_use equals the quote-choice table of the property; should_omit_string/table_parens equal the call_parentheses table; "
                     "create_function_definition/call_trivia produce one space exactly for the option values that name the case.",
-        not_decided=["format_function_args / format_call (call-parentheses insertion/removal incl. the `obscure` exception): unit args, when present"],
+        not_decided=["format_method_call and the function-definition formatters (space after the name in definitions) are stubs: only the constructor create_function_definition_trivia is proved",
+                     "format_function_call's computation of the `obscure` flag for each suffix (next suffix is an index or method call): not under contract"],
         assumptions=[]),
     "C13": dict(units=["cli_io", "diff"], bounded=[dict(kind="cli", scenario="check_never_writes")],
         explanation="format_file (real text): the fs::write call carries the precondition may_write(check=false, data = format_code output of the text read from that path, data != that text); "
@@ -96,7 +97,7 @@ PROPS = {
                      "byte-identical output across carriers is implied only through `same Config`; equality of the library's output for equal Configs is determinism of format_code, not proved"],
         assumptions=["ec4rs Properties::get::<T>() returns the parsed value of key T (wrappers); the string parsers generated by property_choice! are macro output (assumed)"],
         technique="Kani complete enumeration of finite enum domains + Verus contracts on mechanically extracted real functions"),
-    "C07": dict(units=["expr", "block", "ctx", "lib", "tok", "cli_io", "diff", "config", "econf"], kani=["shape"],
+    "C07": dict(units=["expr", "block", "ctx", "lib", "tok", "cli_io", "diff", "config", "econf", "sort", "args"], kani=["shape"],
         explanation="Totality of the library call, decided per function under contract: inside every function whose real text is verified, each panic!/unreachable!/assert!/expect/unwrap, "
                     "each usize subtraction/addition/multiplication and every recursion or loop (decreases) is an obligation Verus discharges for all inputs (one `.total` obligation per function and "
                     "feature set). format_code returns Err(ParseError) iff the input does not parse and never Ok otherwise; format_ast without verification always returns Ok. "
@@ -114,7 +115,7 @@ PROPS = {
                      "groups separated by blank lines (incl. whitespace-only lines), comments, different kinds",
                      "group boundaries by line adjacency: the line arithmetic (current_line - previous_line) is behind a wrapper; its usize subtraction is not checked"],
         assumptions=["parsed ASTs carry positions; local names are identifier tokens (parser)"]),
-    "C02": dict(units=["expr", "block", "lib", "tok"],
+    "C02": dict(units=["expr", "block", "lib", "tok", "args"],
         explanation="expression spine: same obligations as C05 (operator tree, leaves, operators)",
         not_decided=["statement/block/args/token layers are decided in their own units (see runs)"],
         assumptions=[]),
@@ -176,7 +177,26 @@ SORT_WITNESSES = [
 ]
 RANGE_SORT_WITNESSES = [SORT_WITNESSES[2]]
 def cli(s): return dict(kind="cli", scenario=s)
+BRACKET_WITNESSES = [
+    w('local a = t[ [=[hello]=] ]\nlocal b = { [ [==[x]]y]==] ] = 1 }\nlocal c = t[([[x]])]\nlocal d = t[ [[x]] .. "a"]\nlocal e = { [([[x]])] = 1, [ [[y]] .. "z" ] = 2 }\n', oracle="selfverify"),
+    w('local a = t[ [=[hello]=] :: any ]\nlocal c = t[(([[x]]))]\n', oracle="parse", syntax="luau"),
+]
+CALL_SRC = 'local a = require "configuration".has_parens\nlocal b = setup { verbose = true }:run()\nlocal c = f("x")\nlocal d = g({ 1 })\nlocal e = h "y"\nlocal k = m { 2 }\nlocal n = p("s").q\nlocal o = obj:method "z"\n'
+C11_WITNESSES = [
+    w(CALL_SRC, oracle="contains", contains='local a = require "configuration".has_parens\nlocal b = setup { verbose = true }:run()\nlocal c = f("x")\nlocal d = g({ 1 })\nlocal e = h "y"\nlocal k = m { 2 }\nlocal n = p("s").q\n', call_parentheses="Input"),
+    w(CALL_SRC, oracle="contains", contains='local a = require("configuration").has_parens\nlocal b = setup({ verbose = true }):run()\nlocal c = f("x")\nlocal d = g({ 1 })\nlocal e = h("y")\nlocal k = m({ 2 })\nlocal n = p("s").q\nlocal o = obj:method("z")\n', call_parentheses="Always"),
+    w(CALL_SRC, oracle="contains", contains='local a = require("configuration").has_parens\nlocal b = setup({ verbose = true }):run()\nlocal c = f "x"\nlocal d = g { 1 }\nlocal e = h "y"\nlocal k = m { 2 }\nlocal n = p("s").q\nlocal o = obj:method "z"\n', call_parentheses="None"),
+    w(CALL_SRC, oracle="contains", contains='local c = f "x"\nlocal d = g({ 1 })\nlocal e = h "y"\nlocal k = m({ 2 })\n', call_parentheses="NoSingleString"),
+    w(CALL_SRC, oracle="contains", contains='local c = f("x")\nlocal d = g { 1 }\nlocal e = h("y")\nlocal k = m { 2 }\n', call_parentheses="NoSingleTable"),
+    w(CALL_SRC + 'function decl(x) end\nlocal function ldecl(y) end\nlocal anon = function(z) end\n', oracle="contains", contains='local c = f ("x")\nlocal d = g ({ 1 })\nlocal e = h ("y")\nlocal k = m ({ 2 })\nlocal n = p ("s").q\nlocal o = obj:method ("z")\nfunction decl(x) end\nlocal function ldecl(y) end\nlocal anon = function(z) end\n', space_after_function_names="Calls"),
+    w(CALL_SRC + 'function decl(x) end\nlocal function ldecl(y) end\nlocal anon = function(z) end\n', oracle="contains", contains='local c = f("x")\nlocal d = g({ 1 })\nlocal e = h("y")\nlocal k = m({ 2 })\nlocal n = p("s").q\nlocal o = obj:method("z")\nfunction decl (x) end\nlocal function ldecl (y) end\nlocal anon = function (z) end\n', space_after_function_names="Definitions"),
+    w('local s = "it\'s"\nlocal t = \'say "hi"\'\nlocal u = \'plain\'\nlocal v = "a\'b\\"c"\n', oracle="contains", contains='local s = "it\'s"\nlocal t = \'say "hi"\'\nlocal u = "plain"\nlocal v = "a\'b\\"c"\n'),
+    w('local s = "it\'s"\nlocal t = \'say "hi"\'\nlocal u = "plain"\n', oracle="contains", contains='local s = "it\'s"\nlocal t = \'say "hi"\'\nlocal u = \'plain\'\n', quote_style="AutoPreferSingle"),
+    w('local s = "it\'s"\nlocal t = \'say "hi"\'\n', oracle="contains", contains='local s = \'it\\\'s\'\nlocal t = \'say "hi"\'\n', quote_style="ForceSingle"),
+]
 WITNESSES = {
+    "C11.": C11_WITNESSES, "C02.call_sugar": C11_WITNESSES[:5], "C03.args_conversion": [w('f( --[[c]] "x")\ng("y" --[[d]])\nh("z") -- e\nk( -- l\n{})\n', oracle="comments", call_parentheses="None")],
+    "C01.is_brackets_string": BRACKET_WITNESSES, "C01.index_bracket_string": BRACKET_WITNESSES, "C01.bracket_string": BRACKET_WITNESSES,
     "C12.": SORT_WITNESSES,
     "C15.": [cli("config_search")], "C20.": [cli("option_carriers")],
     "C14.": [cli("write_only_formatted_text"), cli("check_never_writes")], "C13.": [cli("check_never_writes")], "C17.": [cli("stdin_stdout_only")],
